@@ -865,6 +865,15 @@ def iter_all(it, args, n, f):
         src = it.force(src.cell)
     if isinstance(src, ZipV):
         pair = TupleV([Cell(SymV("item_a"), "0"), Cell(SymV("item_b"), "1")])
+        fn_ = it.val_force(args[1])
+        if isinstance(fn_, ClosureV):
+            ps = [p for p in it.facts.bodies[fn_.path]["thir"]["params"] if p.get("pat") is not None]
+            if ps and it.ty(ps[0]["ty"])["t"] == "tuple" and len(it.ty(ps[0]["ty"])["a"]) == 2 and ps[0]["pat"]["k"] != "Bind":
+                ta, tb = it.ty(ps[0]["ty"])["a"]
+                sub = ps[0]["pat"].get("subs", [])
+                # the closure destructures the items: hand it unknowns of the item types
+                if any(x["pat"]["k"] not in ("Bind", "Wild") for x in sub):
+                    pair = TupleV([Cell(UnkV(ta, "item_a"), "0"), Cell(UnkV(tb, "item_b"), "1")])
         r = it.call_value(args[1], [pair], {"ty": None})
         it.emit("zip_all", a=src.parts[0], b=src.parts[1], pred=repr(r))
         return BoolV(it.choose("bool:zip_all", [False, True]))
